@@ -461,6 +461,46 @@ func checkC09(c *hx.Checker) {
 			}
 		}
 	}
+	// long slices full of ties (maxima that repeat at even and odd positions, near the start, near the end): unrolled or
+	// multi-lane scans must still return the FIRST position
+	for _, dt := range []ref.DT{ref.F32, ref.I32, ref.I64, ref.F64} {
+		for _, n := range []int{513, 700, 1031} {
+			for variant := 0; variant < 4; variant++ {
+				x := ref.Fill(dt, []int{3, n}, func(i int) float64 {
+					col, row := i%n, i/n
+					switch variant {
+					case 0:
+						return float64((col*7 + row) % 5) // small alphabet: ties everywhere
+					case 1: // the maximum first at an odd position, again at later even ones
+						if col == 301+2*row || col == 400 || col == n-1 {
+							return 9
+						}
+						return float64(col % 4)
+					case 2: // the maximum first at an even position, again at later odd ones
+						if col == 2*row+100 || col == 333 || col == n-2 {
+							return 9
+						}
+						return float64(col % 3)
+					}
+					if col >= n-3 { // maxima only in the tail (remainder of a blocked scan)
+						return 7
+					}
+					return float64(col % 7)
+				})
+				for _, ax := range []int{1, -1, 0} {
+					for _, kd := range []int{0, 1} {
+						e1, err1 := ref.ArgMax(x, ax, kd != 0)
+						jobs = append(jobs, newJob("ArgMax", []hx.Attr{hx.AInt("axis", int64(ax)), hx.AInt("keepdims", int64(kd))}, []*ref.T{x}, []*ref.T{e1}, err1, hx.DCompute, hx.Bits, "op", nil, fmt.Sprintf("long-ties %s n=%d v=%d axis=%d kd=%d", dt, n, variant, ax, kd), "large", "ties"))
+					}
+					a := int64(ax)
+					e2, err2 := ref.Reduce(x, []int64{a}, true, true, true)
+					jobs = append(jobs, newJob("ReduceMax", []hx.Attr{hx.AInts("axes", a), hx.AInt("keepdims", 1)}, []*ref.T{x}, []*ref.T{e2}, err2, hx.DCompute, hx.Bits, "op", nil, fmt.Sprintf("long-ties %s n=%d v=%d axis=%d", dt, n, variant, ax), "large", "ties"))
+					e3, err3 := ref.Reduce(x, []int64{a}, true, true, false)
+					jobs = append(jobs, newJob("ReduceMin", []hx.Attr{hx.AInts("axes", a), hx.AInt("keepdims", 1)}, []*ref.T{x}, []*ref.T{e3}, err3, hx.DCompute, hx.Bits, "op", nil, fmt.Sprintf("long-ties %s n=%d v=%d axis=%d", dt, n, variant, ax), "large", "ties"))
+				}
+			}
+		}
+	}
 	// larger shapes beyond the exhaustive box
 	for _, sh := range [][]int{{4, 5, 6}, {2, 17}, {9, 1, 8}, {37, 111}, {4099}, {3, 1367}, {5, 13, 1009}} {
 		x := ref.Fill(ref.F32, sh, func(i int) float64 { return float64((i*37+11)%101)/10 - 5 })
